@@ -18,6 +18,20 @@ ATTR_VARIANTS = {
 }
 
 
+# generator audit: further (base, other) pairs per identity attribute, used round-robin.  Whether a pair is the same identity is
+# decided by the oracle from the data (identity7 with Python ==), e.g. True == 1, None/0 count as unified False, None as [].
+ATTR_VARIANTS_X = [
+    ("subvariant", "KDE", "kde"), ("subvariant", "", " "), ("subvariant", "Server", "Server "), ("subvariant", u"\u0663", u"\uff17"), ("subvariant", "None", "null"),
+    ("type", "dvd", "dvd-ostree"), ("type", "live", "live-osbuild"), ("type", "qcow", "qcow2"), ("type", "vagrant-virtualbox", "vagrant-vmware-fusion"),
+    ("format", "erofs", "erofs.gz"), ("format", "squashfs", "squashfs.xz"), ("format", "vhd.gz", "vhd.xz"), ("format", "raw", "raw.xz"),
+    ("arch", "ppc", "ppc64"), ("arch", "ppc64", "ppc64le"), ("arch", "src", "nosrc"), ("arch", "x86_64", "X86_64"), ("arch", "noarch", "noarch "),
+    ("disc_number", 1, 10), ("disc_number", 0, -1), ("disc_number", 1, True), ("disc_number", 0, False), ("disc_number", 2 ** 53, 2 ** 53 + 1),
+    ("unified", False, None), ("unified", False, 0), ("unified", True, 1), ("unified", False, ""),
+    ("additional_variants", ["A", "B"], ["B", "A"]), ("additional_variants", [], None), ("additional_variants", ["A"], ["A", "A"]),
+    ("additional_variants", ["a"], ["A"]), ("additional_variants", [], ()),
+]
+
+
 def base_image(rng, n=0):
     return {"path": "Server/x86_64/images/base%d.tar.gz" % n, "mtime": rng.choice(F.MTIMES), "size": rng.choice(F.BIG_SIZES + [1]),
             "volume_id": rng.choice([None, "vol"]), "type": "docker", "format": "tar.gz", "arch": "x86_64", "disc_number": 1, "disc_count": 2,
@@ -26,7 +40,7 @@ def base_image(rng, n=0):
             "subvariant": "Server", "unified": False, "additional_variants": []}
 
 
-def gen_pool(rng, attr):
+def gen_pool(rng, attr, pair=None):
     """six image objects around one identity attribute:
        0 B       base
        1 B'      differs from B ONLY in `attr` (and path), different checksums      -> never a collision with B
@@ -37,15 +51,22 @@ def gen_pool(rng, attr):
     b = base_image(rng)
     if attr == "additional_variants":
         b["unified"] = True
-    b[attr] = copy.deepcopy(ATTR_VARIANTS[attr][0])
+    lo, hi = pair if pair is not None else ATTR_VARIANTS[attr]
+    lo = [] if lo == () else lo
+    hi = [] if hi == () else hi
+    b[attr] = copy.deepcopy(lo)
     def der(i, **kw):
         x = copy.deepcopy(b); x["path"] = "p/%d-%s" % (i, b["path"]); x.update(copy.deepcopy(kw)); return x
     other = {"md5": "%032x" % rng.getrandbits(128), "sha256": "%064x" % rng.getrandbits(256)}
-    bp = der(1, checksums=other); bp[attr] = copy.deepcopy(ATTR_VARIANTS[attr][1])
+    bp = der(1, checksums=other); bp[attr] = copy.deepcopy(hi)
     beq = der(2, bootable=not b["bootable"])
+    if rng.random() < 0.5:                                 # equal checksums entered in another key order
+        beq["checksums"] = dict(reversed(list(b["checksums"].items())))
     bmd5 = der(3, checksums={"md5": "%032x" % rng.getrandbits(128), "sha256": b["checksums"]["sha256"]})
     ball = der(4, checksums={"md5": "%032x" % rng.getrandbits(128), "sha256": "%064x" % rng.getrandbits(256)})
     bpx = copy.deepcopy(bp); bpx["path"] = "p/5-" + b["path"]; bpx["checksums"] = {"sha1": "%040x" % rng.getrandbits(160)}
+    if rng.random() < 0.3:                                 # algorithm name differing only in case: different checksums
+        ball["checksums"] = {"MD5": b["checksums"]["md5"], "sha256": b["checksums"]["sha256"]}
     return [b, bp, beq, bmd5, ball, bpx]
 
 
@@ -73,20 +94,27 @@ class C09(Prop):
         t = F.tables()
         attrs = list(ATTR_VARIANTS)
         n_hist = int(budget * 0.45)
+        bogus = ["src", "nosrc", "x86-64", "", "SRC", "srcx", "sr", "nosr", "no", "nosrcs", " src", "x86_64 ", "ppc6", "ppc64lee", "noarch", "NOARCH", u"\u0663"]
         for n in range(n_hist):
             attr = attrs[n % len(attrs)]
-            pool = gen_pool(rng, attr)
+            if n % 2:
+                xa, lo, hi = ATTR_VARIANTS_X[(n // 2) % len(ATTR_VARIANTS_X)]
+                attr = xa
+                pool = gen_pool(rng, xa, (lo, hi))
+            else:
+                pool = gen_pool(rng, attr)
             variants = rng.sample(F.VARIANTS, 2)
             arches = rng.sample(t["arches"], 2) + ["x86_64"]
             ops = []
             for _ in range(rng.randint(1, 12)):
                 r = rng.random()
-                arch = rng.choice(arches) if r < 0.88 else rng.choice(["src", "nosrc", "x86-64", "", "SRC", "noarch"])
+                arch = rng.choice(arches) if r < 0.88 else F.rr(bogus)
                 if ops and rng.random() < 0.12:
                     ops.append(list(rng.choice(ops)))           # the very same call again
                 else:
                     ops.append([rng.choice(variants), arch, rng.randrange(len(pool))])
-            yield {"op": "history", "args": {"version": VERSIONS[n % len(VERSIONS)], "pool": pool, "ops": ops}}
+            ver = VERSIONS[n % len(VERSIONS)] if n % 6 else F.rr(F.W_VERSIONS)
+            yield {"op": "history", "args": {"version": ver, "pool": pool, "ops": ops}}
         # histories that CROSS the version gate on one object: add / dumps (sets the header to the current version) /
         # header.version assignment / loads into the same object
         for n in range(int(budget * 0.15)):
@@ -117,6 +145,12 @@ class C09(Prop):
             elif r < 0.45:
                 ops.append(["set_version", rng.choice(["1.0", "0.9", "1.1"])])
             ops += adds(rng.randint(1, 3))
+            if n % 3 == 0:
+                # remove through the public containers: the removed image no longer counts, an emptied bucket stays
+                prior = [o for o in ops if o[0] == "add" and o[2] in t["arches"]]
+                if prior:
+                    o = rng.choice(prior)
+                    ops.append(["discard", o[1], o[2], o[3]] if rng.random() < 0.7 else ["del_variant", o[1]])
             for _ in range(rng.randint(1, 2)):
                 c = rng.random()
                 if c < 0.45:
@@ -153,9 +187,23 @@ class C09(Prop):
                     for a, c in d.items():
                         for r in c:
                             r.pop("subvariant", None)
+            # generator audit: keys with a documented reader default are absent; integer attributes as the reader coerces them
+            mode = n % 4
+            for v, d in doc["payload"]["images"].items():
+                for a, c in d.items():
+                    for r in c:
+                        if mode == 1 and rng.random() < 0.6:
+                            r.pop("format", None)                                  # read as "iso" (may create / remove a collision)
+                        if mode == 2 and rng.random() < 0.5 and not r.get("unified"):
+                            r.pop("unified", None); r.pop("additional_variants", None)
+                        if mode == 3 and rng.random() < 0.5:
+                            r["disc_number"] = rng.choice([float(r["disc_number"]) + 0.5, str(r["disc_number"]), " %d " % r["disc_number"], float(r["disc_number"])])
+                            r["disc_number"] = {"$float": repr(r["disc_number"])} if isinstance(r["disc_number"], float) else r["disc_number"]
             yield {"op": "load", "args": {"doc": doc}}
         for n in range(budget - n_hist - int(budget * 0.25) - int(budget * 0.15)):
             img = F.gen_image(rng, n)
+            if n % 2:
+                F.widen_image(rng, img, t)
             r = rng.random()
             if r < 0.2:
                 img["unified"] = True; img["additional_variants"] = []
@@ -198,19 +246,35 @@ class C09(Prop):
                         m.dumps()
                     elif o[0] == "set_version":
                         m.header.version = o[1]
+                    elif o[0] == "discard":
+                        m[o[1]][o[2]].discard(objs[o[3]])
+                    elif o[0] == "del_variant":
+                        del m[o[1]]
                     else:
-                        m.loads(json.dumps(o[1]))
+                        m.loads(json.dumps(F.dec(o[1])))
                     res = "ok"
+                except KeyError as e:
+                    if o[0] in ("discard", "del_variant"):
+                        res = "ok"                           # bucket not there (an earlier add was refused): nothing to remove
+                    else:
+                        res = checklib.err_class(e)
                 except Exception as e:
                     res = checklib.err_class(e)
-                steps.append({"res": res, "version_before": before, "version": m.header.version, "cells": F.snap_cells(m.images)})
+                cells_now = F.snap_cells(m.images)
+                # read-only calls between the mutations, each twice: they must be repeatable and leave the manifest alone
+                filed = [x for d in m.images.values() for c in d.values() for x in c]
+                ids1 = [list(im.identify_image(x)) for x in filed]; ids2 = [list(im.identify_image(x)) for x in filed]
+                for vv in list(m.images):
+                    m[vv]
+                reads_ok = ids1 == ids2 and F.snap_cells(m.images) == cells_now and [x for d in m.images.values() for c in d.values() for x in c] == filed
+                steps.append({"res": res, "version_before": before, "version": m.header.version, "cells": cells_now, "reads_ok": reads_ok})
                 if o[0] == "loads" and res != "ok":
                     break                                   # a failed loads leaves the object half updated: histories end there
             return {"steps": steps}
         if case["op"] == "load":
             m = im.Images()
             try:
-                m.loads(json.dumps(a["doc"]))
+                m.loads(json.dumps(F.dec(a["doc"])))
             except Exception as e:
                 return checklib.err_class(e)
             return {"ok": F.snap(m)}
@@ -327,6 +391,8 @@ class C09(Prop):
                 ctx = {"step": k, "op": o if o[0] != "loads" else ["loads", "<document of format %s>" % o[1]["header"]["version"]],
                        "header_before": st["version_before"], "header_after": st["version"], "result": st["res"],
                        "history": [(x if x[0] != "loads" else ["loads", x[1]["header"]["version"]]) for x in a["ops"][:k + 1]]}
+                if not st.get("reads_ok", True):
+                    return {"kind": "state-changed-by-read", "observed": ctx, "required": "identify_image / __getitem__ are repeatable and leave the manifest unchanged"}
                 if o[0] == "add":
                     vp = F.version_pair(st["version_before"]) if isinstance(st["version_before"], str) else None
                     enforce = vp is not None and vp >= (1, 1)
@@ -348,6 +414,15 @@ class C09(Prop):
                         if new not in cell or any(r not in recs(st["cells"]) for r in recs(prev)) or len(recs(st["cells"])) > len(recs(prev)) + 1:
                             return {"kind": "wrong-filing", "observed": ctx, "required": "the image is filed under the given variant and arch, nothing else changes"}
                     step_enforces = enforce
+                elif o[0] in ("discard", "del_variant"):
+                    want = copy.deepcopy(prev)
+                    if o[0] == "del_variant":
+                        want.pop(o[1], None)
+                    elif o[1] in want and o[2] in want[o[1]]:
+                        want[o[1]][o[2]] = [r for r in want[o[1]][o[2]] if r != a["pool"][o[3]]] if a["pool"][o[3]] in want[o[1]][o[2]] else want[o[1]][o[2]]
+                    if checklib.canon(st["cells"]) != checklib.canon(want):
+                        return {"kind": "wrong-removal", "observed": ctx, "required": "exactly the removed image / variant is gone"}
+                    step_enforces = False
                 elif o[0] in ("dumps", "set_version"):
                     if st["cells"] != prev:
                         return {"kind": "cells-changed", "observed": ctx, "required": "%s does not touch the images" % o[0]}
@@ -367,7 +442,7 @@ class C09(Prop):
                 prev = st["cells"]
             return None
         if case["op"] == "load":
-            doc = a["doc"]
+            doc = F.dec(a["doc"])
             vp = F.version_pair(doc["header"]["version"])
             recs = [r for r in F.doc_records(doc)]
             # images under a `src` key of a <= 1.1 document are re-filed (or dropped): leave them out of the claim
@@ -386,6 +461,14 @@ class C09(Prop):
                 if not bad and "err" in real_out:
                     return {"kind": "spurious-rejection", "observed": dict(real_out, version=doc["header"]["version"]),
                             "required": "a valid document without identity collision loads"}
+            if "ok" in real_out and not any("src" in d for d in doc["payload"]["images"].values()):
+                # against what was PUT IN: the document's records with the reader's documented defaults and coercions
+                want = dict((v, dict((aa, sorted((F.read_record(r) for r in c), key=F.rec_key)) for aa, c in d.items() if c))
+                            for v, d in doc["payload"]["images"].items())
+                want = dict((v, d) for v, d in want.items() if d)
+                if checklib.canon(real_out["ok"]["images"]) != checklib.canon(want):
+                    return {"kind": "loaded-differs-from-document", "observed": {"loaded": real_out["ok"]["images"], "version": doc["header"]["version"]},
+                            "required": {"images": want}}
             return None
         if case["op"] == "identify":
             want = list(F.identity7(a["image"]))
